@@ -48,7 +48,7 @@ def schema(reg):
     f("$hist", HistT)  # ghost: everything ever published by an output
 
 
-WORLD = sv.SRef(z3.IntVal(-1), None)  # the "world" object carrying ghost global state
+WORLD = sv.WORLD  # the "world" object carrying ghost global state
 
 
 # ---------------------------------------------------------------------------------------------
